@@ -710,6 +710,239 @@ class Gen:
             return S("loop", B(i, Kw("range"), B(0, k), j, Kw("in"), B(*[r.range(10, 40) for _ in range(2)])), *body)
         return S("seq", B(i, Kw("range"), B(0, k)), *body, i)
 
+    # ------------------------------------------------------------------ closures escaping from nested non-loop scopes
+    ESC_KINDS = ["do", "if-do", "when", "unless", "let", "if-let", "cond", "if-else", "upscope-do"]
+
+    def escaping_closures(self, sc, d):
+        """2-4 nested NON-loop scopes (do / if-do / when / unless / let / if-let / cond branch / else branch, upscope mixed in);
+        locals (def and var) are defined at every level; closures created at depth >= 2 capture them (read, or count on a
+        captured var) and escape: pushed to an array that lives outside, assigned to an outer var, or returned as the value
+        of the nested scopes; optionally the whole thing is the body of a function that returns the closures.  AFTER the inner
+        scopes have closed the enclosing scope defines 1-4 further locals (def / var / destructured / built from nested calls
+        that need temporaries); the closures are called afterwards (twice: counters) and the later locals are observed and
+        mutated.  A captured local's register must stay reserved for as long as the function that owns it compiles."""
+        r = self.r
+        self.features.add("escaping-closures")
+        G = self.fresh("g", sc, noshadow=True)
+        self.reserved.add(G)
+        store = r.choice(["array", "array", "array", "var", "var", "value"])
+        self.features.add("esc-store-" + store)
+        maker = r.chance(1, 4)
+        home = sc
+        caps0 = []
+        if maker:
+            self.features.add("esc-returned-from-fn")
+            home = Scope(sc, fn=True)
+            p = self.fresh("p", home, noshadow=True)
+            self.reserved.add(p)
+            home.vars[p] = ("n", False)
+            caps0 = [(p, 0, False)]
+        levels = r.range(2, 4)
+        self.features.add("esc-levels-%d" % levels)
+        body = []
+        if store == "array":
+            body.append(S("def", G, Lit("arr", [])))
+        elif store == "var":
+            body.append(S("var", G, None))
+        if r.chance(1, 3):          # a local of the enclosing scope defined BEFORE the nest (keeps its register throughout)
+            nm = self.fresh("x", home, noshadow=True)
+            self.reserved.add(nm)
+            body.append(S("def", nm, self.pn(home)))
+            home.vars[nm] = ("n", False)
+            caps0.append((nm, 0, False))
+        nest = self._esc_level(home, d + 1, G, store, 1, levels, 0, caps0)
+        body.append(S("def", G, nest) if store == "value" else nest)
+        calls = self._esc_calls(G, store)
+        body += self._esc_later(home, d, calls, r.range(1, 4))
+        if maker:
+            later = [Sym(n) for n, (t, m) in home.vars.items() if t == "n" and n not in [c[0] for c in caps0]]
+            R = self.fresh("g", sc, noshadow=True)
+            self.reserved.add(R)
+            mk = self.fresh("f", sc, noshadow=True)
+            self.reserved.add(mk)
+            body.append(B(G, *later))
+            form = S("defn", mk, B(caps0[0][0]), *body) if r.chance(1, 2) else S("def", mk, S("fn", B(caps0[0][0]), *body))
+            out = [form, S("def", R, S(mk, r.range(1, 9)))]
+            if r.chance(1, 2):      # frames of other calls overwrite the dead frame of the maker
+                out.append(S("emit", S("tuple", r.range(10, 20), S("+", "a", r.range(1, 5)), S("-", "m", 1))))
+            rcalls = self._esc_calls(None, store, lambda: S(R, 0))
+            out += [rcalls(), S("emit", S("tuple/slice", R, 1))]
+            if r.chance(1, 2):
+                out.append(rcalls())
+            return S("upscope", *out)
+        return S("upscope", *body)
+
+    def _esc_calls(self, G, store, ge=None):
+        """-> function building (fresh nodes each time) the statement that calls every escaped closure and emits the results"""
+        ge = ge or (lambda: Sym(G))
+        if store == "array":
+            return lambda: S("each", "g_", ge(), S("emit", S("g_")))
+        return lambda: S("when", ge(), S("emit", S(ge())))
+
+    def _esc_later(self, home, d, calls, k):
+        """the locals defined after the nested scopes have closed + calls of the escaped closures + observation"""
+        r = self.r
+        out = []
+        names = []
+        for _ in range(k):
+            c = r.below(10)
+            nm = self.fresh("y", home, noshadow=True)
+            self.reserved.add(nm)
+            if c < 3:
+                out.append(S("def", nm, self.pn(home)))
+                home.vars[nm] = ("n", False)
+            elif c < 6:
+                out.append(S("var", nm, self.pn(home)))
+                home.vars[nm] = ("n", True)
+            elif c < 8:       # nested calls: temporaries are allocated (and freed) before the local gets its register
+                self.features.add("esc-later-temporaries")
+                out.append(S(r.choice(["def", "var"]), nm, S("+", S("*", self.pn(home), 2), S("-", self.pn(home), r.range(1, 3)), S("length", B(self.pn(home), self.pn(home))))))
+                home.vars[nm] = ("n", out[-1].xs[0].name == "var")
+            elif c < 9:
+                self.features.add("esc-later-destructure")
+                nm2 = self.fresh("y", home, noshadow=True)
+                self.reserved.add(nm2)
+                out.append(S("def", B(nm, nm2), B(self.pn(home), self.pn(home))))
+                home.vars[nm] = ("n", False)
+                home.vars[nm2] = ("n", False)
+                names.append(nm2)
+            else:
+                out.append(S("def", nm, self.n(home, d + 1)))
+                home.vars[nm] = ("n", False)
+            names.append(nm)
+            if r.chance(1, 4):
+                out.append(calls())
+        out.append(calls())
+        out.append(S("emit", B(*names)))
+        muts = [n for n in names if home.vars[n][1]]
+        if muts and r.chance(2, 3):
+            # the later local is written, the closures run again (counters), the later locals are read again
+            self.features.add("esc-later-mutated")
+            v = r.choice(muts)
+            out.append(S("set", v, S("+", v, r.range(1, 5))) if r.chance(1, 2) else S("++", v))
+            out.append(calls())
+            out.append(S("emit", B(*names)))
+        elif r.chance(1, 2):
+            out.append(calls())
+        return out
+
+    def _esc_cond(self, sc, d, want):
+        """condition that is (mostly) `want` at run time without being a compile-time constant: `a` is 3 in every context"""
+        r = self.r
+        if r.chance(1, 5) and not self.low(d):
+            return self.b(sc, d + 1)
+        if want:
+            return r.choice([lambda: S("=", "a", 3), lambda: S("<", "a", r.range(4, 12)), lambda: S(">=", "a", r.range(0, 3)), lambda: S("number?", "a"),
+                             lambda: S("<", 0, "a", 5)])()
+        return r.choice([lambda: S(">", "a", r.range(3, 9)), lambda: S("=", "a", r.range(4, 9)), lambda: S("<", "a", r.range(-3, 3)), lambda: S("nil?", "a")])()
+
+    def _esc_closure(self, d, caps):
+        """0-ary closure over the captured locals: reads them; counts on one of the captured vars"""
+        r = self.r
+        deep = [c for c in caps if c[1] >= 2]
+        must = r.choice(deep)
+        body = []
+        mdeep = [c for c in caps if c[2]]
+        if mdeep and r.chance(2, 3):
+            self.features.add("esc-counter")
+            v = r.choice([c for c in mdeep if c[1] >= 2] or mdeep)[0]
+            body.append(S("set", v, S("+", v, r.range(1, 3))) if r.chance(2, 3) else S("++", v))
+        picks = [c[0] for c in caps if c is must or r.chance(1, 2)]
+        if len(picks) == 1 and r.chance(1, 2):
+            body.append(Sym(picks[0]))
+        else:
+            body.append(S("+", *picks, r.range(0, 3)))
+        self.features.add("esc-capture-depth-%d" % min(must[1], 5))
+        return S("fn", B(), *body)
+
+    def _esc_level(self, sc, d, G, store, level, levels, sdepth, caps):
+        """one nesting level; sdepth = number of compiler scopes between the enclosing function scope and this level's parent"""
+        r = self.r
+        self.spend(4)
+        kind = r.choice(self.ESC_KINDS)
+        self.features.add("esc-" + kind)
+        inner = Scope(sc)
+        caps = list(caps)
+        add = {"do": 1, "if-do": 2, "when": 2, "unless": 2, "let": 1, "if-let": 2, "cond": 2, "if-else": 2, "upscope-do": 1}[kind]
+        here = sdepth + add
+        body = []
+        binds = []
+
+        def local(mut, init=None):
+            nm = self.fresh("v" if mut else "x", inner, noshadow=True)
+            self.reserved.add(nm)
+            inner.vars[nm] = ("n", mut)
+            caps.append((nm, here, mut))
+            return nm
+        if kind == "let":
+            for _ in range(r.range(1, 2)):
+                v = self.pn(inner) if r.chance(2, 3) else self.n(inner, d + 1)
+                binds += [Sym(local(False)), v]
+        elif kind == "if-let":
+            v = S("get", "b", r.range(0, 2)) if r.chance(1, 2) else self.pn(sc)
+            binds = [Sym(local(False)), v]
+        innermost = level >= levels
+        ndef = r.range(1, 2) if (innermost and not binds) else r.range(0, 2)
+        for _ in range(ndef):
+            mut = r.chance(1, 2)
+            init = self.pn(inner) if r.chance(2, 3) else self.n(inner, d + 1)
+            nm = local(mut)
+            body.append(S("var" if mut else "def", nm, init))
+        if r.chance(1, 4) and not self.low(d):
+            body.append(self.stmt(inner, d + 1))
+        elif r.chance(1, 4):
+            body.append(S("emit", Sym(caps[-1][0]) if caps else self.lit_n()))
+        has_deep = any(c[1] >= 2 for c in caps)
+
+        def stored():
+            clo = self._esc_closure(d, caps)
+            if store == "array":
+                return S("array/push", G, clo)
+            if store == "var":
+                return S("set", G, clo)
+            return clo
+        if not innermost:
+            if store == "array" and has_deep and r.chance(1, 3):
+                body.append(stored())
+            nxt = self._esc_level(inner, d + 1, G, store, level + 1, levels, here, caps)
+            body.append(nxt)
+            if store != "value" and r.chance(1, 3):
+                # locals of THIS level after the deeper scopes closed, closures called from here
+                calls = self._esc_calls(G, store)
+                self.features.add("esc-intermediate-later")
+                body += self._esc_later(inner, d, calls, r.range(1, 2))
+        else:
+            body.append(stored())
+        # ---- wrap
+        if kind == "do":
+            return S("do", *body)
+        if kind == "upscope-do":
+            return S("upscope", S("do", *body))
+        if kind == "let":
+            return S("let", B(*binds), *body)
+        blk = body[0] if len(body) == 1 and r.chance(1, 2) and kind in ("if-let",) else S("do", *body)
+        if kind == "if-do":
+            els = [] if (store == "value" or r.chance(1, 2)) else [S("emit", self.pn(sc))]
+            return S("if", self._esc_cond(sc, d, True), blk, *els)
+        if kind == "if-else":
+            return S("if", self._esc_cond(sc, d, False), None if store == "value" or r.chance(1, 2) else S("emit", self.pn(sc)), blk)
+        if kind == "when":
+            return S("when", self._esc_cond(sc, d, True), *body)
+        if kind == "unless":
+            return S("unless", self._esc_cond(sc, d, False), *body)
+        if kind == "if-let":
+            els = [] if (store == "value" or r.chance(1, 2)) else [S("emit", self.pn(sc))]
+            return S("if-let", B(*binds), blk, *els)
+        # cond: the nest is the branch at a random position, earlier conditions are false
+        pos = r.range(0, 2)
+        xs = []
+        for _ in range(pos):
+            xs += [self._esc_cond(sc, d, False), None if store == "value" else S("emit", self.pn(sc))]
+        xs += [self._esc_cond(sc, d, True), blk]
+        if r.chance(1, 2):
+            xs.append(None if store == "value" else S("emit", self.pn(sc)))
+        return S("cond", *xs)
+
     # ------------------------------------------------------------------ statements
     def loop_body(self, inner, d):
         r = self.r
@@ -738,7 +971,11 @@ class Gen:
             f = S("def" if c == 1 else "var", nm, self.n(sc, d + 1))
             sc.vars[nm] = ("n", c == 2)
             return f
-        c = r.below(46)
+        c = r.below(47)
+        if c == 46:
+            if self.closures:
+                return self.escaping_closures(sc, d)
+            return S("emit", self.x(sc, d + 1))
         if c < 5:
             nm = self.fresh("x", sc)
             mut = r.chance(1, 2)
